@@ -47,6 +47,12 @@ func (r *Result) stat(k string, n int64) {
 	if r.Stats == nil {
 		r.Stats = map[string]int64{}
 	}
+	if len(k) > 4 && k[:4] == "max." {
+		if n > r.Stats[k] {
+			r.Stats[k] = n
+		}
+		return
+	}
 	r.Stats[k] += n
 }
 
